@@ -628,7 +628,10 @@ fn send(kind: &str, ops: &[&Step], s: &mut Sender) -> Result<Built, SendErr> {
                     x => return Err(HarnessError(format!("CoseSign1: unknown op {}", x)).into()),
                 }
             }
-            Ok(Built::Sign1(b.build()))
+            match guarded(move || b.build()) {
+                Ok(m) => Ok(Built::Sign1(m)),
+                Err(p) => Err(v5(format!("build() panicked: {}", p))),
+            }
         }
         "CoseSign" => {
             let mut b = coset::CoseSignBuilder::new();
@@ -733,7 +736,10 @@ fn send(kind: &str, ops: &[&Step], s: &mut Sender) -> Result<Built, SendErr> {
                     x => return Err(HarnessError(format!("CoseSign: unknown op {}", x)).into()),
                 }
             }
-            Ok(Built::Sign(b.build()))
+            match guarded(move || b.build()) {
+                Ok(m) => Ok(Built::Sign(m)),
+                Err(p) => Err(v5(format!("build() panicked: {}", p))),
+            }
         }
         "CoseMac" => {
             let mut b = coset::CoseMacBuilder::new();
@@ -796,7 +802,10 @@ fn send(kind: &str, ops: &[&Step], s: &mut Sender) -> Result<Built, SendErr> {
                     x => return Err(HarnessError(format!("CoseMac: unknown op {}", x)).into()),
                 }
             }
-            Ok(Built::Mac(b.build()))
+            match guarded(move || b.build()) {
+                Ok(m) => Ok(Built::Mac(m)),
+                Err(p) => Err(v5(format!("build() panicked: {}", p))),
+            }
         }
         "CoseMac0" => {
             let mut b = coset::CoseMac0Builder::new();
@@ -853,7 +862,10 @@ fn send(kind: &str, ops: &[&Step], s: &mut Sender) -> Result<Built, SendErr> {
                     x => return Err(HarnessError(format!("CoseMac0: unknown op {}", x)).into()),
                 }
             }
-            Ok(Built::Mac0(b.build()))
+            match guarded(move || b.build()) {
+                Ok(m) => Ok(Built::Mac0(m)),
+                Err(p) => Err(v5(format!("build() panicked: {}", p))),
+            }
         }
         "CoseEncrypt" => {
             let mut b = coset::CoseEncryptBuilder::new();
@@ -908,7 +920,10 @@ fn send(kind: &str, ops: &[&Step], s: &mut Sender) -> Result<Built, SendErr> {
                     x => return Err(HarnessError(format!("CoseEncrypt: unknown op {}", x)).into()),
                 }
             }
-            Ok(Built::Encrypt(b.build()))
+            match guarded(move || b.build()) {
+                Ok(m) => Ok(Built::Encrypt(m)),
+                Err(p) => Err(v5(format!("build() panicked: {}", p))),
+            }
         }
         "CoseEncrypt0" => {
             let mut b = coset::CoseEncrypt0Builder::new();
@@ -957,7 +972,10 @@ fn send(kind: &str, ops: &[&Step], s: &mut Sender) -> Result<Built, SendErr> {
                     x => return Err(HarnessError(format!("CoseEncrypt0: unknown op {}", x)).into()),
                 }
             }
-            Ok(Built::Encrypt0(b.build()))
+            match guarded(move || b.build()) {
+                Ok(m) => Ok(Built::Encrypt0(m)),
+                Err(p) => Err(v5(format!("build() panicked: {}", p))),
+            }
         }
         "CoseRecipient" => {
             let mut b = coset::CoseRecipientBuilder::new();
@@ -1016,7 +1034,10 @@ fn send(kind: &str, ops: &[&Step], s: &mut Sender) -> Result<Built, SendErr> {
                     }
                 }
             }
-            Ok(Built::Recipient(b.build()))
+            match guarded(move || b.build()) {
+                Ok(m) => Ok(Built::Recipient(m)),
+                Err(p) => Err(v5(format!("build() panicked: {}", p))),
+            }
         }
         x => Err(HarnessError(format!("unknown builder kind {}", x)).into()),
     }
